@@ -240,6 +240,12 @@ breaking('O3B-seed-C18-r3m3', {'C18': 'O3B'}, patch='/verif/selftest/patches/see
 breaking('DT4-seed-C20-r3m2', {'C20': 'DT4'}, patch='/verif/selftest/patches/seed_C20_r3m2.diff')
 breaking('EV1-seed-C20-r3m3', {'C20': 'EV1'}, patch='/verif/selftest/patches/seed_C20_r3m3.diff')
 breaking('DOM1-seed-C17-r3m3', {'C17': 'DOM1'}, patch='/verif/selftest/patches/seed_C17_r3m3.diff')
+breaking('PR1-seed-C08-r4m1', {'C08': 'PR1'}, patch='/verif/selftest/patches/seed_C08_r4m1.diff')
+breaking('MC3-seed-C08-r4m2', {'C08': 'MC3', 'C07': 'MC3'}, patch='/verif/selftest/patches/seed_C08_r4m2.diff')
+breaking('E6-seed-C08-r4m3', {'C08': 'E6'}, patch='/verif/selftest/patches/seed_C08_r4m3.diff')
+breaking('MC3-seed-C10-r4m1', {'C10': 'MC3', 'C09': 'O5'}, patch='/verif/selftest/patches/seed_C10_r4m1.diff')
+breaking('S2-seed-C10-r4m2', {'C10': 'S2', 'C11': 'S2'}, patch='/verif/selftest/patches/seed_C10_r4m2.diff')
+breaking('S5-seed-C10-r4m3', {'C10': 'S5', 'C09': 'S5'}, patch='/verif/selftest/patches/seed_C10_r4m3.diff')
 breaking('refix-get_gme_2qubit', {'C13': 'F2', 'C05': 'F2'}, patch_reverse='fix_78cd862.diff')
 
 # ---- behaviour-preserving edits for the second half of the round-3 rules
